@@ -266,7 +266,7 @@ func populate(dst reflect.Value, v Val) {
 		}
 	case reflect.Float64, reflect.Float32:
 		if v.K == "f" {
-			dst.SetFloat(v.F)
+			dst.SetFloat(v.Fl())
 		} else if v.K == "i" {
 			dst.SetFloat(float64(v.I))
 		}
@@ -986,6 +986,9 @@ func (e *Engine) Build(n *Node) z.ZogSchema {
 				}
 				if err := preErr(rec, s); err != nil {
 					return "", err
+				}
+				if s == "n/a" {
+					s = "" // a placeholder the application maps to "nothing there"
 				}
 				return strings.TrimSpace(s), nil
 			}, inner)
